@@ -560,11 +560,14 @@ def nh_line(rng, struct, name='a'):
 
 def repeat_exposures(rng, doc):
     """-> a copy of doc in which some groups are exposed a second time, straight after the first, at a later
-    timestamp (what a scrape history looks like).  NOT part of the valid-document generator: the unchanged parser keeps
-    group_timestamp_samples when the timestamp of a group advances, so in the second exposure every series but the
-    first is dropped as a duplicate, and a classic histogram with two or more buckets is rejected."""
+    timestamp (what a scrape history looks like).  d.added = number of sample lines added when every repeated group holds
+    pairwise different series (then none of them may be dropped as a duplicate), else None.
+    Before fixes/C15-om-later-exposure.diff the parser kept group_timestamp_samples when the timestamp of a group
+    advanced: in the second exposure every series but the first was dropped as a duplicate, and a classic histogram
+    with two or more buckets was rejected."""
     from decimal import Decimal
     d = copy.deepcopy(doc)
+    d.added = 0
     for f in d.families:
         if f.typ == 'info':
             continue
@@ -580,6 +583,11 @@ def repeat_exposures(rng, doc):
                 s.ts = _ts_token(e + (top - min(exact)) + rng.choice([1, 5, Decimal('0.000000001')]))
                 s.exemplar = None
             f.groups[gi] = g + again
+            series = [(s.suffix, tuple(sorted(s.labels))) for s in g]
+            if d.added is not None and len(set(series)) == len(series):
+                d.added += len(again)
+            else:
+                d.added = None
     return d
 
 
@@ -1245,9 +1253,9 @@ def v_hist_le_nan(rng, doc):
 
 def v_hist_later_exposure(rng, doc):
     """a histogram group exposed a second time at a later timestamp, where the second exposure breaks a group rule: its
-    _count differs from its +Inf bucket, or a finite bucket follows the +Inf bucket with a larger count.  The unchanged
-    parser resets group_timestamp_samples only when the group changes, not when its timestamp advances, so every
-    series of the second exposure but the first is dropped as a duplicate before _check_histogram runs."""
+    _count differs from its +Inf bucket, or a finite bucket follows the +Inf bucket with a larger count.  (Before
+    fixes/C15-om-later-exposure.diff the parser dropped every series of the second exposure but the first as a
+    duplicate before _check_histogram ran, and accepted these documents.)"""
     out = []
     for fi, f in enumerate(doc.families):
         if not _is_hist(f):
@@ -1282,8 +1290,8 @@ def v_hist_later_exposure(rng, doc):
     return out
 
 
-KNOWN_RULES = {'hist_bucket_repeated': v_hist_bucket_repeated, 'hist_le_nan': v_hist_le_nan,
-               'hist_later_exposure': v_hist_later_exposure}
+KNOWN_RULES = {'hist_bucket_repeated': v_hist_bucket_repeated, 'hist_le_nan': v_hist_le_nan}
+RULES['hist_later_exposure'] = v_hist_later_exposure
 
 
 def all_violations(rng, doc, per_rule=None):
@@ -1339,6 +1347,11 @@ REGRESSION_DOCS = [
     '# TYPE a histogram\na_bucket{le="1"} 1 1\na_bucket{le="+Inf"} 1 1\na_bucket{le="1"} 2 2\na_bucket{le="+Inf"} 2 2\n# EOF\n',
     '# TYPE a counter\na_total 1 1\na_created 1 1\na_total 2 2\na_created 2 2\n# EOF\n',
     '# TYPE a summary\na_count 1 1\na_sum 1 1\na_count 2 2\na_sum 2 2\n# EOF\n',
+    # ... a later exposure that breaks a group rule (accepted before fixes/C15-om-later-exposure.diff), and a valid one
+    '# TYPE a histogram\na_bucket{le="+Inf"} 3 1\na_count 3 1\na_sum 1 1\na_bucket{le="+Inf"} 4 2\na_count 5 2\na_sum 1 2\n# EOF\n',
+    '# TYPE a histogram\na_bucket{le="1"} 5 1\na_bucket{le="+Inf"} 5 1\na_bucket{le="+Inf"} 7 2\na_bucket{le="1"} 9 2\n# EOF\n',
+    '# TYPE a gaugehistogram\na_bucket{le="+Inf"} 3 1\na_gcount 3 1\na_gsum 1 1\na_bucket{le="+Inf"} 4 2\na_gcount 5 2\na_gsum 1 2\n# EOF\n',
+    '# TYPE a histogram\na_bucket{le="+Inf"} 3 1\na_count 3 1\na_sum 1 1\na_bucket{le="+Inf"} 4 2\na_count 4 2\na_sum 2 2\n# EOF\n',
     # zero bounds and zero / huge / nanosecond timestamps
     '# TYPE a histogram\na_bucket{le="0.0"} 1\na_bucket{le="0"} 1\na_bucket{le="+Inf"} 1\n# EOF\n',
     '# TYPE a histogram\na_bucket{le="-0.0"} 3\na_bucket{le="-2.5"} 3\na_bucket{le="+Inf"} 3\n# EOF\n',
